@@ -151,7 +151,7 @@ func RunPlan(t *testing.T, plan *Plan) (res *Result) {
 				res.Status, res.Sig = "harness_error", "deadlock"
 			}
 			res.Detail = msg
-		} else if strings.Contains(panicStack, "/repo/") && !strings.Contains(firstFrames(panicStack, 6), "/verif/zsim") {
+		} else if strings.Contains(panicStack, "github.com/getlantern/zenodb") && !strings.Contains(firstFrames(panicStack, 6), "zsim.") {
 			res.Status, res.Sig = "violation", "panic"
 			res.Detail = msg + "\n" + panicStack
 		} else {
